@@ -66,7 +66,27 @@ def sq(x):
     return x * x
 
 
-FUNCS = {"add2": add2, "scale": scale, "hyp": hyp, "sq": sq,
+def tot(c):
+    """total of every number held (at any depth) by a container: a function of the container AS A WHOLE"""
+    if isinstance(c, dict):
+        vals = [c[k] for k in sorted(c, key=repr)]
+    elif isinstance(c, (list, tuple)):
+        vals = list(c)
+    elif hasattr(c, "fields"):
+        f = c.fields()
+        vals = [f[k] for k in sorted(f)]
+    else:
+        raise TypeError(f"tot() of {type(c).__name__}")
+    s = 0
+    for v in vals:
+        if isinstance(v, (dict, list, tuple)) or hasattr(v, "fields"):
+            s = s + tot(v)
+        elif isinstance(v, (int, float, complex)) or hasattr(v, "dtype"):
+            s = s + v
+    return s
+
+
+FUNCS = {"add2": add2, "scale": scale, "hyp": hyp, "sq": sq, "tot": tot,
          "sin": math.sin, "cos": math.cos, "atan": math.atan}
 
 
